@@ -8,7 +8,7 @@
 (* Verdicts:  ok | impl_violates | input_invalid | oracle_indeterminate    *)
 (* Only impl_violates is a property violation; the others are tool errors. *)
 (***************************************************************************)
-EXTENDS IEEE, Json, IOUtils
+EXTENDS MinLex, Json, IOUtils
 
 Recs == ndJsonDeserialize(IOEnv.VERIF_RECORDS)
 N == Len(Recs)
@@ -19,9 +19,10 @@ CheckAgree  == IOEnv.VERIF_CHECK_AGREE = "1"     \* all configurations return id
 CheckNoPanic == IOEnv.VERIF_CHECK_NOPANIC = "1"  \* outcome is a value (C04)
 CheckAllocs == IOEnv.VERIF_CHECK_ALLOCS = "1"    \* allocs = 0 in configurations without alloc (C15)
 CheckExpect == IOEnv.VERIF_CHECK_EXPECT = "1"    \* record carries "expect" bits that must be returned (C03)
+CheckModel  == IOEnv.VERIF_CHECK_MODEL = "1"     \* run the algorithm model (MinLex) next to the implementation
 
-VARIABLES i, pc, verdict, trail
-vars == <<i, pc, verdict, trail>>
+VARIABLES i, pc, verdict, trail, ml
+vars == <<i, pc, verdict, trail, ml>>
 
 FmtOf(r) == IF r.fmt = "f64" THEN F64 ELSE F32
 
@@ -39,11 +40,11 @@ Judgements(r) ==
   IN [k \in 1..Len(r.outs) |->
         IF r.outs[k].kind # "value" THEN "skip" ELSE Judge(F, r.outs[k].bits, dv)]
 
-Init == i \in 1..N /\ pc = "start" /\ verdict = "none" /\ trail = <<>>
+Init == i \in 1..N /\ pc = "start" /\ verdict = "none" /\ trail = <<>> /\ ml = <<MLInit, MLInit>>
 
 \* one step of the judgement pipeline: stay on course or stop with a verdict
-Go(next, tag)   == pc' = next /\ verdict' = verdict /\ trail' = Append(trail, tag) /\ UNCHANGED i
-Stop(v, tag)    == pc' = "report" /\ verdict' = v /\ trail' = Append(trail, tag) /\ UNCHANGED i
+Go(next, tag)   == pc' = next /\ verdict' = verdict /\ trail' = Append(trail, tag) /\ UNCHANGED <<i, ml>>
+Stop(v, tag)    == pc' = "report" /\ verdict' = v /\ trail' = Append(trail, tag) /\ UNCHANGED <<i, ml>>
 
 Validate ==
   /\ pc = "start"
@@ -85,15 +86,62 @@ JudgeAllocs ==
   /\ LET r == Recs[i] IN
      IF CheckAllocs /\ \E k \in 1..Len(r.outs) : ~HasAlloc(r.outs[k].cfg) /\ r.outs[k].allocs # 0
      THEN Stop("impl_violates", "heap allocation without the alloc feature")
-     ELSE pc' = "report" /\ verdict' = "ok" /\ trail' = Append(trail, IF CheckAllocs THEN "noalloc" ELSE "-") /\ UNCHANGED i
+     ELSE /\ pc' = IF CheckModel THEN "model0" ELSE "report"
+          /\ verdict' = IF CheckModel THEN verdict ELSE "ok"
+          /\ trail' = Append(trail, IF CheckAllocs THEN "noalloc" ELSE "-") /\ UNCHANGED <<i, ml>>
+
+\* ------------------------------------------------------------------------
+\* The algorithm model next to the implementation.  Stage by stage MinLex is
+\* advanced for both variants of the moderate path (ml[1]: Eisel-Lemire,
+\* ml[2]: Bellerophon); at the end every observable the implementation
+\* exposed (Number fields through the hook, path, moderate estimate, bits)
+\* is compared with the model's.  A difference is DRIFT (a note); only a
+\* model result that contradicts the oracle is an error of the model
+\* ("spec_disagrees").  Neither is ever a property violation.
+IsCompact(cfgname) == \E k \in 1..(Len(cfgname) - 6) : SubSeq(cfgname, k, k + 6) = "compact"
+
+ModelStage(s, r, compact) ==
+  LET F == FmtOf(r) IN
+  IF s.pc = "start" THEN MLParseNum(s, r.int, r.frac, r.exp)
+  ELSE IF s.pc = "number" THEN (IF MLFastEnabled(F, s) THEN MLFast(F, s) ELSE MLModerate(F, compact, s))
+  ELSE IF s.pc = "declined" THEN MLSlow(F, s, r.int, r.frac)
+  ELSE s
+
+OutMatches(s, o) ==
+  \/ o.path \in {"unknown", "panic"}
+  \/ /\ o.num.mant = s.num.mant /\ o.num.exp = s.num.exp /\ o.num.many = s.num.many
+     /\ o.path = s.path
+     /\ (s.path # "fast" => (o.mod.mant = s.est.mant /\ o.mod.exp = s.est.exp))
+     /\ (o.kind = "value" => o.bits = s.bits)
+
+ModelStep ==
+  /\ pc \in {"model0", "model1", "model2"}
+  /\ ml' = [k \in 1..2 |-> ModelStage(ml[k], Recs[i], k = 2)]
+  /\ pc' = IF pc = "model0" THEN "model1" ELSE IF pc = "model1" THEN "model2" ELSE "modelcmp"
+  /\ UNCHANGED <<i, verdict, trail>>
+
+ModelCompare ==
+  /\ pc = "modelcmp"
+  /\ LET r == Recs[i]
+         F == FmtOf(r)
+         dv == DecVal(r.int, r.frac, r.exp)
+         okm == \A k \in 1..2 : Judge(F, ml[k].bits, dv) = "ok"
+         drift == \E k \in 1..Len(r.outs) : ~OutMatches(ml[IF IsCompact(r.outs[k].cfg) THEN 2 ELSE 1], r.outs[k])
+         note == [lemire |-> ml[1].tr, bellerophon |-> ml[2].tr, dbg |-> ml[1].dbg \/ ml[2].dbg,
+                  limbs |-> Max2(ml[1].limbs, ml[2].limbs), drift |-> drift]
+     IN /\ trail' = Append(trail, ToJson(note))
+        /\ verdict' = IF okm THEN "ok" ELSE "spec_disagrees"
+        /\ pc' = "report"
+  /\ UNCHANGED <<i, ml>>
 
 \* one line per record for the driver
 Finish ==
   /\ pc = "report"
   /\ PrintT("VP|" \o ToJson([id |-> Recs[i].id, verdict |-> verdict, trail |-> trail]))
-  /\ pc' = "done" /\ UNCHANGED <<i, verdict, trail>>
+  /\ pc' = "done" /\ UNCHANGED <<i, verdict, trail, ml>>
 
-Next == Validate \/ JudgeOutcome \/ JudgeValue \/ JudgeExpect \/ JudgeAgree \/ JudgeAllocs \/ Finish
+Next == Validate \/ JudgeOutcome \/ JudgeValue \/ JudgeExpect \/ JudgeAgree \/ JudgeAllocs
+        \/ ModelStep \/ ModelCompare \/ Finish
 Spec == Init /\ [][Next]_vars
 
 VerdictOK == verdict \in {"none", "ok"}
